@@ -286,6 +286,27 @@ func c07Run(tier string) *c07Out {
 		}
 	}
 	out.samples = append(out.samples, map[string]interface{}{"kind": "signature grid", "keys": 4, "digests": 4, "v_conventions": []int{0, 27}})
+	// the recovery byte: the contract's ecrecover knows 27 / 28 only (the relayers add 27 to the hub's 0 / 1); the hub
+	// accepts a signature under exactly those four spellings of the right recovery id - every value of the byte is tried
+	for ki, k := range keys[:2] {
+		d := digs[ki]
+		sig, err := mhubtypes.NewEthereumSignature(d, k)
+		if err != nil {
+			continue
+		}
+		rec := sig[64]
+		for v := 0; v < 256; v++ {
+			s2 := append([]byte{}, sig...)
+			s2[64] = byte(v)
+			err := mhubtypes.ValidateEthereumSignature(d, s2, crypto.PubkeyToAddress(k.PublicKey))
+			out.evals++
+			should := byte(v) == rec || byte(v) == rec+27
+			if should != (err == nil) {
+				out.bad("signature_validation_wrong", "ValidateEthereumSignature(recovery byte)", "sig by key %d with recovery id %d presented with v=%d: err=%v (the contract recovers a signer for v=27/28 only)", ki, rec, v, err)
+			}
+		}
+	}
+	out.samples = append(out.samples, map[string]interface{}{"kind": "recovery byte sweep", "keys": 2, "values": 256})
 
 	// ---- (2) the real Hub2 bytecode accepts what the hub asks validators to sign, and nothing else
 	c07EVM(out, keys, gids, tier)
@@ -469,7 +490,7 @@ func init() {
 			}
 			out.Evidence = map[string]interface{}{"level": "exploration", "coverage": map[string]interface{}{
 				"evaluations": r.evals, "distinct_nontrivial": r.distinct,
-				"rule":        "Cartesian grid of shapes: gravity id length {0,1,16,31,32}; nonces/timeouts {0,1,2^32,2^63-1}; member lists of 0..4 members over powers {0,1,2^32-1} (all assignments up to 3 members); batches of {0,1,2,3,100} transfers with amounts/fees {0,1,2^255,2^256-1}; contract calls with payload length {0,1,31,32,33,64}, 0..2 tokens/fees, scope length {0,1,32}. Each shape: GetCheckpoint == keccak(independent ABI encoding), compared after three other digests have been computed (a digest handed out stays what it is). Signature grid 4 keys x 4 digests x 2 v-conventions against all (key,digest). EVM: real Hub2 bytecode accepts validator signatures over the hub digest for updateValset/submitBatch/submitLogicCall and reverts for a flipped digest bit, changed data, foreign key. Every evaluation is a distinct tuple.",
+				"rule":        "Cartesian grid of shapes: gravity id length {0,1,16,31,32}; nonces/timeouts {0,1,2^32,2^63-1}; member lists of 0..4 members over powers {0,1,2^32-1} (all assignments up to 3 members); batches of {0,1,2,3,100} transfers with amounts/fees {0,1,2^255,2^256-1}; contract calls with payload length {0,1,31,32,33,64}, 0..2 tokens/fees, scope length {0,1,32}. Each shape: GetCheckpoint == keccak(independent ABI encoding), compared after three other digests have been computed (a digest handed out stays what it is). Signature grid 4 keys x 4 digests x 2 v-conventions against all (key,digest); all 256 values of the recovery byte for 2 keys. EVM: real Hub2 bytecode accepts validator signatures over the hub digest for updateValset/submitBatch/submitLogicCall and reverts for a flipped digest bit, changed data, foreign key. Every evaluation is a distinct tuple.",
 				"samples":     r.samples, "evm_calls": r.evm, "exhaustive": true,
 			}, "assumptions": []string{"Hub2 bytecode = module/solidity/Hub2.go (Hub2MetaData.Bin); no solc in the sandbox to recompile Hub2.sol", "uint64 fields >= 2^63 are unreachable counters and excluded", "'for no other address or digest' is decided over the finite key/digest grid"}}
 			out.Summary = fmt.Sprintf("evaluations=%d evm=%v violations=%d (%s)", r.evals, r.evm, len(out.Violations), time.Since(start).Round(time.Millisecond))
